@@ -21,16 +21,7 @@ PID = "C03"
 
 def numeric_params(topo, seed):
     """'num' mode: exactly representable values so that float constant folding is exact in the reals."""
-    rng = random.Random(seed)
-    env = numrun.sample_env(topo, rng, dyadic=True)
-    P = {}
-    for n in T_.param_names(topo):
-        P[n] = env[n]
-        if n.startswith("a_"):
-            P[n] = 2.0
-        if n.startswith("lam_"):
-            P[n] = float(rng.choice([1, 2, 4]))
-    return P
+    return numrun.exact_params(topo, seed)
 
 
 def cas_terms(topo, symtype, numeric, compact, more_out, flags=None):
